@@ -51,8 +51,10 @@ def ctorFields : List Exp → List Exp → List (Bytes × Loc × Exp)
   | _ :: ks, _ :: vs => ctorFields ks vs
   | _, _ => []
 
+/-- the fields of the constructor that initialises a table: `{ … }` itself, or the default idiom `X or { … }` -/
 def fieldsOf : Option Exp → List (Bytes × Loc × Exp)
   | some (.table ks vs _) => ctorFields ks vs
+  | some (.binop .or _ (.table ks vs _) _) => ctorFields ks vs
   | _ => []
 
 /-- member declarations made by the top-level statements: (base name, base identifier Loc, key, key Loc, value) -/
@@ -60,6 +62,8 @@ def topMembers : List Stat → List (Bytes × Loc × Bytes × Loc × Exp)
   | [] => []
   | .assign [.index (.name t tl) (.str k kl) _] [e] _ :: r => (t, tl, k, kl, e) :: topMembers r
   | .assign [.name t tl] [.table ks vs _] _ :: r =>
+    (ctorFields ks vs).map (fun (k, kl, v) => (t, tl, k, kl, v)) ++ topMembers r
+  | .assign [.name t tl] [.binop .or _ (.table ks vs _) _] _ :: r =>
     (ctorFields ks vs).map (fun (k, kl, v) => (t, tl, k, kl, v)) ++ topMembers r
   | .local_ names exps _ :: r =>
     (localPairs names exps).flatMap (fun (n, l, e) => (fieldsOf e).map fun (k, kl, v) => (n, l, k, kl, v)) ++ topMembers r
